@@ -99,6 +99,37 @@ CLAIMED = {
             'category k; any interleaving of next calls yields per-category prefixes of the sequential runs.',
             'Trusted: category names are mapped to ranks in Python string order; fake_s3 stands in for S3; lookup-driven runs '
             'are compared per category as sets with no limit set; the tie runs in-process mode only.', 'DESIGN.md 6/C19'),
+    'C01': ('Lean 4 theorem by induction over interaction-tree programs with two stability lemmas (an input key keeps the '
+            'world\'s envelope, an output-result key is never rewritten): replaying the final data of a record run reproduces '
+            'every call outcome, runs no body and captures the recorded outputs one for one; lifted to the @operation / play() '
+            'level; tied to /repo by differential execution and a record-then-replay oracle on all cassettes',
+            'Kernel-checked: for every program (any calls, shared aliases, nested interceptions, data handlers) satisfying the '
+            'property\'s premises (inputs are functions of their key, lawful handlers, no play_data in the control flow), a '
+            'saved complete recording fetched with equal data replays to the same result with playback outputs = recorded outputs '
+            'in call order and no body executed. Partial: worker threads inside the operation are not covered by a theorem.',
+            'Trusted: Lean kernel; recorder model tied by differential execution; values opaque (serialisation faithfulness is '
+            'C06/C07; known finding K7 on shared references); cassette round trip is a hypothesis discharged by C07.',
+            'DESIGN.md 6/C01'),
+    'C02': ('Lean 4 theorems stating the replay decision table row by row (key error, first present key in fallback order, '
+            'run-original, substitute, missing-key error; output result / default / error), no body runs during replay (induction '
+            'on programs), play() touches the cassette with one get only; tied to /repo by the exhaustive policy table with '
+            'documentation-derived expected answers plus random (recorded, replayed) program pairs',
+            'Kernel-checked for every recording and every replayed program: each interception is answered exactly as the '
+            'documented policy says, never from another call\'s key, bodies run only under run-original, nothing is created / '
+            'saved / aborted and the stored recordings are unchanged. Idempotence of repeated replays is checked by the tie '
+            '(oracle), not by a theorem.',
+            'Trusted: Lean kernel; recorder model tied by differential execution; structured keys (text rendering is C06).',
+            'DESIGN.md 6/C02'),
+    'C03': ('Lean 4 theorems: each intercepted output call adds exactly one entry (alias, next ordinal) -> sent arguments in '
+            'recording and in replay, ordinals start at 1, extraction picks exactly the output entries, the text of output keys '
+            'is injective in (alias, ordinal) for all aliases and ordinals (List Char proof via the last #), whole-run equality '
+            'from the C01 induction; tied to /repo by program pairs (P, edit of P) whose expected output maps are computed from '
+            'the programs alone',
+            'Kernel-checked entry-level and whole-run statements for all programs; key-text injectivity for all aliases and '
+            'all ordinals. The "difference at exactly the affected entries" sentence is decided by the oracle from the '
+            'per-entry theorems plus key injectivity (no separate theorem).',
+            'Trusted: Lean kernel; recorder model tied by differential execution; known finding K4 (arguments stored by '
+            'reference) excluded: values are immutable in the model.', 'DESIGN.md 6/C03'),
 }
 
 NOT_YET = 'check not built yet in this round (work in progress; see DESIGN.md section 6 for the planned proof and tie)'
